@@ -220,7 +220,7 @@ noncomputable def fluxAccum (flux : FluxFn ℝ) (pr : Params ℝ) : Accum (fluxP
     have h1 : a.prim = a'.prim := by have := congrArg HV.prim ha; exact this
     have h2 : a.grad = a'.grad := by have := congrArg HV.grad ha; exact this
     have h3 : a.cons = a'.cons := by have := congrArg HV.cons ha; exact this
-    simp only [fluxPhys, ghostFaceFlux, ghostFaceFluxTag, ghostFluxFac, h1, h2, h3]
+    simp only [fluxPhys, ghostFaceFluxB, ghostFaceFluxTagB, ghostFluxFac, h1, h2, h3]
   ro_left _ _ _ := rfl
   ro_right _ _ _ := rfl
   comm_LL _ _ k k' a := by simp only [fluxPhys, Q.sub_sub_comm a.dcons k k']
@@ -266,5 +266,96 @@ noncomputable def gradAccum (pr : Params ℝ) : Accum (gradPhys pr) (HV ℝ) whe
   comm_LL ax ax' k k' a := gradAddLeft_comm ax ax' a k.1 k.2.1 k'.1 k'.2.1
   comm_LR ax ax' k k' a := gradAddLeft_subRight_comm ax ax' a k.1 k.2.1 k'.1 k'.2.2
   comm_RR ax ax' k k' a := gradSubRight_comm ax ax' a k.1 k.2.2 k'.1 k'.2.2
+
+/-! ### the limiter premise: after the gradient sweeps `lo ≤ hi` in every cell that a call touched -/
+
+/-- neighbour minimum ≤ neighbour maximum for all five variables -/
+def LoHi (h : HV ℝ) : Prop :=
+  h.lo.d ≤ h.hi.d ∧ h.lo.v.x ≤ h.hi.v.x ∧ h.lo.v.y ≤ h.hi.v.y ∧ h.lo.v.z ≤ h.hi.v.z ∧ h.lo.e ≤ h.hi.e
+
+theorem min_le_max' (a b W : ℝ) : min a W ≤ max b W := (min_le_right _ _).trans (le_max_right _ _)
+
+/-- one gradient call establishes the premise whatever the limiters were before
+(`min(lo, W) ≤ W ≤ max(hi, W)`) -/
+theorem loHi_gradAddLeft (ax : Axis) (h : HV ℝ) (k W : Q ℝ) : LoHi (gradAddLeft ax h k W) := by
+  simp only [LoHi, gradAddLeft, Q.min, Q.max, amin_real, amax_real]
+  exact ⟨min_le_max' _ _ _, min_le_max' _ _ _, min_le_max' _ _ _, min_le_max' _ _ _, min_le_max' _ _ _⟩
+
+theorem loHi_gradSubRight (ax : Axis) (h : HV ℝ) (k W : Q ℝ) : LoHi (gradSubRight ax h k W) := by
+  simp only [LoHi, gradSubRight, Q.min, Q.max, amin_real, amax_real]
+  exact ⟨min_le_max' _ _ _, min_le_max' _ _ _, min_le_max' _ _ _, min_le_max' _ _ _, min_le_max' _ _ _⟩
+
+/-- the cells a call touches -/
+def opCells' : Op → List Cell
+  | .pair _ l r => [l, r]
+  | .ghost _ _ x => [x]
+
+theorem grad_applyOp_cases (pr : Params ℝ) (s : Grid (HV ℝ)) (o : Op) (x : Cell) :
+    (x ∉ opCells' o ∧ applyOp (gradPhys pr) s o x = s x) ∨
+      (x ∈ opCells' o ∧ LoHi (applyOp (gradPhys pr) s o x)) := by
+  cases o with
+  | pair ax l r =>
+    simp only [applyOp, gupd, opCells', List.mem_cons, List.not_mem_nil, or_false]
+    by_cases hr : x = r
+    · right; refine ⟨Or.inr hr, ?_⟩
+      simp only [hr, if_true, gradPhys]; exact loHi_gradSubRight _ _ _ _
+    · by_cases hl : x = l
+      · right; refine ⟨Or.inl hl, ?_⟩
+        subst hl
+        simp only [hr, if_true, if_false, gradPhys]
+        exact loHi_gradAddLeft _ _ _ _
+      · left; exact ⟨by simp [hl, hr], by simp [hl, hr]⟩
+  | ghost ax up c =>
+    simp only [applyOp, gupd, opCells', List.mem_cons, List.not_mem_nil, or_false]
+    by_cases hc : x = c
+    · right; refine ⟨hc, ?_⟩
+      simp only [hc, if_true, gradPhys]; exact loHi_gradAddLeft _ _ _ _
+    · left; exact ⟨hc, by simp [hc]⟩
+
+/-- after a gradient phase every cell that had the premise before or is touched by one of the
+calls has `lo ≤ hi` -/
+theorem loHi_runOps (pr : Params ℝ) (ops : List Op) (s : Grid (HV ℝ)) (x : Cell)
+    (h : LoHi (s x) ∨ ∃ o ∈ ops, x ∈ opCells' o) : LoHi (runOps (gradPhys pr) s ops x) := by
+  induction ops generalizing s with
+  | nil =>
+    rcases h with h | ⟨o, ho, _⟩
+    · exact h
+    · simp at ho
+  | cons o ops ih =>
+    show LoHi (runOps (gradPhys pr) (applyOp (gradPhys pr) s o) ops x)
+    apply ih
+    rcases grad_applyOp_cases pr s o x with ⟨hn, he⟩ | ⟨_, hl⟩
+    · rcases h with h | ⟨o', ho', hx'⟩
+      · left; rw [he]; exact h
+      · rcases List.mem_cons.mp ho' with rfl | ho''
+        · exact absurd hx' hn
+        · right; exact ⟨o', ho'', hx'⟩
+    · left; exact hl
+
+/-- every cell of the grid is touched by a gradient call of the layout (its `+x` face is a pair
+face or a box-boundary face) -/
+theorem valid_cell_touched (L : Layout) (c : Cells) (hc : 0 < c.cx ∧ 0 < c.cy ∧ 0 < c.cz)
+    {x : Cell} (hx : valid (cellGrid L c) x = true) : ∃ o ∈ layoutOps L c, x ∈ opCells' o := by
+  have hcl : 0 < clen c .x := by simp [clen, hc]
+  cases hn : ngbUp (cellGrid L c) .x x with
+  | some y =>
+    have hm : (x, y) ∈ allFaces L c .x :=
+      (mem_allFaces_iff L c .x hcl x y).mpr ((mem_gridFaces _ _ _ _).mpr ⟨hx, hn⟩)
+    refine ⟨.pair .x x y, ?_, by simp [opCells']⟩
+    simp only [layoutOps, axes, List.mem_flatMap, List.mem_append, List.mem_map]
+    exact ⟨.x, by simp, Or.inl (Or.inl ⟨(x, y), hm, rfl⟩)⟩
+  | none =>
+    have hm : x ∈ allGhosts L c .x true :=
+      (mem_allGhosts_iff L c .x true hcl x).mpr ((mem_gridGhosts _ _ _ _).mpr ⟨hx, by simpa using hn⟩)
+    refine ⟨.ghost .x true x, ?_, by simp [opCells']⟩
+    simp only [layoutOps, axes, List.mem_flatMap, List.mem_append, List.mem_map]
+    exact ⟨.x, by simp, Or.inl (Or.inr ⟨x, hm, rfl⟩)⟩
+
+/-! ### the accumulators are reset by the conserved update -/
+
+theorem updateConserved_resets (dmax : ℝ) (h : HV ℝ) (dt : ℝ) :
+    (updateConserved dmax h dt).dcons = ⟨0, ⟨0, 0, 0⟩, 0⟩ ∧ (updateConserved dmax h dt).eterm = 0 ∧
+      (updateConserved dmax h dt).acc = h.acc ∧ (updateConserved dmax h dt).grad = Grad.zero := by
+  refine ⟨?_, ?_, ?_, ?_⟩ <;> simp [updateConserved, updateConservedTag, V3.zero, lit0]
 
 end CMacVerif.HydroStep
